@@ -57,6 +57,7 @@ def real_scaled(optic, kind, eps, w):
 
 def fit_slope(es, errs, floor):
     pts = [(math.log(e), math.log(v)) for e, v in zip(es, errs) if v > floor and math.isfinite(v)]
+    pts = pts[-5:]          # asymptotic regime: the smallest scale factors that are still above the noise floor
     if len(pts) < 3:
         return None
     x = np.array([p[0] for p in pts])
@@ -152,6 +153,13 @@ def work(ctx, cases):
         try:
             optic = lensgen.build_case(case)
             w = optic.primary_wavelength
+            if case.get('edits'):
+                from . import c01
+                paraxial_rays(optic)
+                optic.trace_generic(0.0, 0.5, 0.0, 0.5, w)      # warm any cache with the unedited lens
+                for e in case['edits']:
+                    c01.apply_op(optic, tuple(e))
+                ctx.count('edited-then-requeried')
             par = paraxial_rays(optic)
             toks = realenc.lens_tokens(optic, w)
         except Exception as e:  # noqa
@@ -218,6 +226,17 @@ def run(tier, seed, replay=None):
     else:
         cases = [{'sample': n} for n, _ in lensgen.sample_classes()]
         cases += [gen_case(ctx.rng) for _ in range(150 if ctx.quick() else 5000)]
+        extra = []
+        for c in cases:
+            if 'desc' in c and ctx.rng.random() < 0.25:
+                ns = len(c['desc']['surfaces'])
+                k = ctx.rng.randint(1, ns - 2)
+                if k > ns - 3 or any(c['desc']['surfaces'][q].get('material', {}).get('kind') == 'mirror' for q in (k, k + 1)):
+                    continue
+                e = dict(c)
+                e['edits'] = [['si', lensgen.dyadic(ctx.rng, 1.3, 2.0, 8), k]]
+                extra.append(e)
+        cases += extra
     from .core import run_parallel
     run_parallel(ctx, 'harness.c05', 'work', cases, nproc=4 if ctx.quick() else None)
     return finish(ctx, aud,
